@@ -207,8 +207,26 @@ def check_ts_roundtrip(acc, tmp):
 
     from . import c09
 
-    for name in ("ts_full", "ts_one", "ts_noedges", "ts_empty", "ts_nosamples"):
-        ts = c09._ts(name)
+    for name in ("ts_full", "ts_one", "ts_noedges", "ts_empty", "ts_nosamples", "ts_tieindex"):
+        if name == "ts_tieindex":
+            # a valid index that breaks a tie (two parents of equal time, same interval) the other way round
+            # from build_index(): it is part of the object and must come back as it was
+            import numpy as np
+
+            tc = tskit.TableCollection(1.0)
+            for fl, t in ((1, 0.0), (1, 0.0), (0, 1.0), (0, 1.0)):
+                tc.nodes.add_row(fl, t)
+            tc.edges.add_row(0, 1, 2, 0)
+            tc.edges.add_row(0, 1, 3, 1)
+            tc.indexes = tskit.TableCollectionIndexes(edge_insertion_order=np.array([1, 0], dtype=np.int32),
+                                                      edge_removal_order=np.array([0, 1], dtype=np.int32))
+            try:
+                ts = tc.tree_sequence()
+            except Exception:  # noqa: if this tie order is not accepted there is nothing to round-trip
+                acc.count("tie_index_not_accepted")
+                continue
+        else:
+            ts = c09._ts(name)
         fp = fingerprint(ts.dump_tables())
         for path in ("dump_path", "dump_file", "pickle", "tables_ts", "dict"):
             case = {"kind": "tsrt", "ts": name, "path": path}
